@@ -14,6 +14,7 @@ import (
 	"path/filepath"
 	"strings"
 	"sync"
+	"sync/atomic"
 	"testing"
 	"time"
 
@@ -31,6 +32,7 @@ var (
 	flagReplay = flag.String("replay", "", "scenario replay file")
 	flagTag    = flag.String("tag", "0", "names the output files")
 	flagMaxLen = flag.Int("maxlen", 12, "maximum collection size")
+	flagHammer = flag.Int("hammer", 0, "C05/C06 stress phase: executions per selected early-stop scenario (0 = off)")
 )
 
 type fileSpec struct {
@@ -309,6 +311,8 @@ func executeAs(s *rt.Spec, scn *rt.Scenario, prop, regName string) *execResult {
 	case <-time.After(60 * time.Second):
 		if d, ok := rt.AwaitNoSched(map[int64]bool{}, 3*time.Second); ok && d != "" {
 			res.hang = d
+		} else if d, ok := rt.HangDump(); ok {
+			res.hang = d // stuck outside the scheduler package (generated code, cff runtime)
 		} else {
 			res.inconclusive = "directive did not return within 60s but the process is not in a stable blocked state"
 		}
@@ -334,6 +338,7 @@ type failRecord struct {
 	Spec     *rt.Spec     `json:"spec"`
 	Scenario *rt.Scenario `json:"scenario"`
 	Findings []rt.Finding `json:"findings"`
+	Hammer   int          `json:"hammer,omitempty"` // >0: the scenario fails under this many repeated executions (stress phase)
 }
 
 func outPath(name string) string {
@@ -456,6 +461,16 @@ func TestInner(t *testing.T) {
 				if s.Name != fr.Prog {
 					continue
 				}
+				if fr.Hammer > 0 {
+					res := hammer(s, fr.Scenario, 4*fr.Hammer)
+					if res.inconclusive != "" {
+						t.Skip(res.inconclusive)
+					}
+					if fs := hammerFindings(res, prop); len(fs) > 0 {
+						t.Fatalf("replay reproduces:\n%s", fmtFindings(fs))
+					}
+					continue
+				}
 				for i := 0; i < 30; i++ {
 					mine, _, res := evaluate(s, fr.Scenario, prop)
 					if res.inconclusive != "" {
@@ -487,6 +502,23 @@ func TestInner(t *testing.T) {
 					scn := genScenario(rt_, s, d)
 					writeJSON(curPath, failRecord{Prop: prop, Engine: "bin", Prog: s.Name, Spec: s, Scenario: scn,
 						Findings: []rt.Finding{{Prop: "C04", Msg: "the process died while this scenario was executing (a panic escaped the generated code)"}}})
+					if hm := hammerScenario(rt_, s, scn, prop); hm != nil {
+						// stress phase (C05/C06): rare windows - a job finishing at the
+						// very moment the directive gives up - need very many executions
+						// of one early-stop scenario rather than many scenarios
+						res := hammer(s, hm, *flagHammer)
+						if logf != nil {
+							lb, _ := json.Marshal(map[string]interface{}{"h": scnHash(s, hm) + "/hammer", "prog": s.Name, "faults": 1, "g": 8, "hammer": *flagHammer})
+							logf.Write(append(lb, '\n'))
+						}
+						if fs := hammerFindings(res, prop); len(fs) > 0 {
+							failed = true
+							writeJSON(outPath("fail-"+*flagTag+".json"), failRecord{Prop: prop, Engine: "bin", Prog: s.Name, Spec: s, Scenario: hm, Findings: fs, Hammer: *flagHammer})
+							// a stuck process cannot be shrunk or re-run: stop the whole inner driver
+							t.Logf("directive %s scenario %s\n%s", s.Name, mustJSON(hm), fmtFindings(fs))
+							os.Exit(1)
+						}
+					}
 					reps := 1
 					if failed {
 						reps = 10
@@ -537,6 +569,109 @@ func TestInner(t *testing.T) {
 	}
 	if curPath != "" {
 		os.Remove(curPath)
+	}
+}
+
+// hammerScenario decides whether this scenario also gets a stress run and
+// returns the variant to execute: same faults and cancellation, but every
+// user function returns at once and one execution at a time per goroutine.
+func hammerScenario(t *rapid.T, s *rt.Spec, scn *rt.Scenario, prop string) *rt.Scenario {
+	if *flagHammer <= 0 || (prop != "C05" && prop != "C06") {
+		return nil
+	}
+	faulty := scn.CancelK != rt.CNone || len(scn.Elems) > 0
+	for _, o := range scn.Out {
+		if o.K != rt.OOk {
+			faulty = true
+		}
+	}
+	if !faulty || uniform(t, "hammer", 8) != 0 {
+		return nil
+	}
+	hm := *scn
+	hm.Out = append([]rt.Outcome{}, scn.Out...)
+	for i := range hm.Out {
+		hm.Out[i].T, hm.Out[i].D = 0, 0
+	}
+	hm.Elems = append([]rt.ElemOutcome{}, scn.Elems...)
+	for i := range hm.Elems {
+		hm.Elems[i].O.T, hm.Elems[i].O.D = 0, 0
+	}
+	if hm.CancelK == rt.CTimer {
+		hm.CancelK, hm.CancelU = rt.CInUnit, 0
+	}
+	hm.G, hm.GateU, hm.GateFor = 1, 0, 0
+	return &hm
+}
+
+func hammerFindings(res *execResult, prop string) []rt.Finding {
+	var fs []rt.Finding
+	if res.hang != "" && prop == "C05" {
+		fs = append(fs, rt.Finding{Prop: "C05", Msg: "a call of the directive never returned although every user function returns at once; the whole process is blocked:\n" + res.hang})
+	}
+	if res.leak != "" && prop == "C06" {
+		fs = append(fs, rt.Finding{Prop: "C06", Msg: "scheduler goroutines remain blocked after all calls of the directive returned:\n" + res.leak})
+	}
+	return fs
+}
+
+// hammer executes one scenario calls times from 8 goroutines.
+func hammer(s *rt.Spec, scn *rt.Scenario, calls int) *execResult {
+	prog := rt.Lookup(s.Name)
+	res := &execResult{}
+	base := rt.SchedIDs()
+	const workers = 8
+	var done atomic.Int64
+	var wg sync.WaitGroup
+	for w := 0; w < workers; w++ {
+		wg.Add(1)
+		go func(w int) {
+			defer wg.Done()
+			for i := 0; i < calls/workers+1; i++ {
+				env := rt.NewEnv(w, s, scn)
+				env.Race = true
+				ctx, cancel := context.WithCancel(rt.WithEnv(context.Background(), env))
+				env.Cancel = cancel
+				if scn.CancelK == rt.CPre {
+					cancel()
+				}
+				func() {
+					defer func() { recover() }()
+					prog(env, ctx)
+				}()
+				cancel()
+				done.Add(1)
+			}
+		}(w)
+	}
+	fin := make(chan struct{})
+	go func() { wg.Wait(); close(fin) }()
+	last, lastAt := int64(-1), time.Now()
+	for {
+		select {
+		case <-fin:
+			leak, ok := rt.AwaitNoSched(base, 20*time.Second)
+			if !ok {
+				res.inconclusive = "scheduler goroutines still present after the stress run, not in a stable blocked state"
+			}
+			res.leak = leak
+			return res
+		case <-time.After(2 * time.Second):
+		}
+		if n := done.Load(); n != last {
+			last, lastAt = n, time.Now()
+			continue
+		}
+		if time.Since(lastAt) > 10*time.Second {
+			if d, ok := rt.HangDump(); ok {
+				res.hang = d
+				return res
+			}
+			if time.Since(lastAt) > 120*time.Second {
+				res.inconclusive = "stress run made no progress for 120s but the process is not in a stable blocked state"
+				return res
+			}
+		}
 	}
 }
 
